@@ -50,7 +50,8 @@ GROUPS: dict[str, list[tuple[str, str]]] = {
                      + [("core/expressions.py", f"{c}.get_variables") for c in ("Constant", "Variable", "BinaryOp", "UnaryOp")],
     # _gradient_iterative: rule templates (gen_tables) + control skeleton (py2lean_graditer) are translated
     "iterative": [("core/autodiff.py", "_estimate_tree_depth")],
-    "solve": [("problem.py", "Problem.solve"), ("core/autodiff.py", "increased_recursion_limit")],
+    # increased_recursion_limit is translated (py2lean_post.gen_limit_shape -> Generated/HookShape, Props/HookTie)
+    "solve": [("problem.py", "Problem.solve")],
 }
 
 # property -> the groups its statement depends on (its own model's transcription first, then the models it composes with)
